@@ -24,10 +24,26 @@ func genModuleDir() string { return filepath.Join(repo, "v2") }
 
 func renderSpec(s *schema.Schema) []byte { return s.ManifestV2() }
 
+// import path of the hash package the hand-written custom typerefs of a manifest refer to
+const fnv1aImport = "github.com/PapaCharlie/go-restli/v2/fnv1a"
+
 func drvArgs(spec, out, root string) []string { return []string{spec, out} }
 
-// restrictForGen: the v2 generation takes the whole grammar.
-func restrictForGen(s *schema.Schema) {}
+// restrictForGen: the v2 generation takes the whole grammar, except that a custom typeref which the generator may move to
+// conflictResolution is generated as an ordinary typeref (open finding KF-C12-custom-typeref-moved, witness below).
+func restrictForGen(s *schema.Schema) { s.KeepCustomTyperefsInPlace() }
+
+// witnessCustomTyperefMoved: records of two namespaces referring to each other, one of them with a field of a custom
+// typeref type.
+func witnessCustomTyperefMoved() *schema.Schema {
+	s := &schema.Schema{}
+	s.Add(&schema.Named{Ident: schema.Ident{Name: "Celsius", Namespace: "w.a"}, Kind: "typeref", Prim: "int32", Custom: true})
+	s.Add(&schema.Named{Ident: schema.Ident{Name: "Left", Namespace: "w.a"}, Kind: "record", Fields: []schema.Field{
+		{Name: "t", Type: schema.R("w.a", "Celsius")}, {Name: "r", Type: schema.R("w.b", "Right"), Optional: true}}})
+	s.Add(&schema.Named{Ident: schema.Ident{Name: "Right", Namespace: "w.b"}, Kind: "record", Fields: []schema.Field{
+		{Name: "l", Type: schema.R("w.a", "Left"), Optional: true}}})
+	return s
+}
 
 func checkedInBindings(t *testing.T, rec *stats.Recorder) {
 	checked := filepath.Join(repo, "v2", "restlidata", "generated")
@@ -52,6 +68,7 @@ func knownWitnesses() []kfWitness {
 		{"KF-C12-field-method-clash", witnessFieldMethodClash(), "field and method with the same name"},
 		{"KF-C12-receiver-package-clash", witnessReceiverPackageClash(), "x.Item"},
 		{"KF-C12-derived-type-name-clash", witnessDerivedNameClash(), "Node_PartialUpdate redeclared"},
+		{"KF-C12-custom-typeref-moved", witnessCustomTyperefMoved(), "undefined: Celsius"},
 	}
 }
 
